@@ -6,7 +6,7 @@ import json
 LEVEL = "proof"
 MANIFEST_ENTRY = {
     "category": "proof",
-    "text": "Lean 4 theorems over an executable model of config.py (assoc-list dicts, canonical '-'/'_' names, _assign with undo record, update/merge/refresh, device validation): get-after-set under the same and under the other '-'/'_' spelling (`get_assign_twin`, altKey involution), sibling preservation (frame), with-block exit restores the exact previous configuration for every assignment list, rejected device leaves state untouched, refresh = merge of defaults and idempotent. The model is tied to the code on every run by an order-sensitive differential run of random op sequences, and a last-writer-wins reference map is evaluated on the real module as the failing-input search.",
+    "text": "Lean 4 theorems over an executable model of config.py (assoc-list dicts, canonical '-'/'_' names, _assign with undo record, update/merge/refresh, device validation): get-after-set under the same and under the other '-'/'_' spelling (`get_assign_twin`, altKey involution), sibling preservation (frame), with-block exit restores the exact previous configuration for every assignment list, rejected device leaves state untouched, refresh = merge of defaults and idempotent; and over WHOLE HISTORIES of set / with / update_defaults / refresh calls, raising or not (`hstep`/`hrun`, the transition function the driver itself runs): last writer wins (`lww_history`), also when the path is read with every component in its other spelling (`lww_history_twin`, from the `WellKeyed` invariant preserved by every operation), with-blocks are no-ops, the defaults list only grows, refresh after any history = merge of the accumulated defaults. The model is tied to the code on every run by an order-sensitive differential run of random op sequences, and a last-writer-wins reference map is evaluated on the real module as the failing-input search.",
     "note": "Trusted: Lean kernel + propext/Classical.choice/Quot.sound; the hand model is validated only by sampled correspondence; torch.device parsing and cuda/mps availability are parameters; yaml collection is made empty; keys mixing '-' and '_' are outside the twin-spelling claims.",
     "technique": "Lean 4 proof (induction over key paths / op lists) + model-vs-implementation correspondence",
 }
